@@ -36,7 +36,7 @@ CHECKS["C04"] = (
     "stateless model checking of the implementation: controlled scheduler over real OS processes, all schedules up to a preemption bound (iterative context bounding) + one injected fault at every fault point",
     "2..3 real processes with long-lived Collection handles (different spellings of one path, different buffer sizes) run every program tuple of reading()/writing() sessions; a controller "
     "owns every lock and file action (fasteners trylock/unlock and the library stream are wrapped at run time) and executes EVERY schedule with <= 2 (thorough: 3) preemptions; a second "
-    "family injects one exception at every fault point of a session (body, encoder, n-th file write, close, open). Oracles: file-level writer exclusion monitor, lock compatibility, no "
+    "family injects one exception at every fault point of a session (body, encoder, n-th file write, close, open, final flush losing the buffered data); a lifecycle family adds sessions with a timeout (they give up instead of waiting) and processes that terminate normally while others keep working (the library's atexit hooks run under the scheduler). Oracles: file-level writer exclusion monitor, lock compatibility, no "
     "deadlock, state idle/file closed/lock acquirable by a third process after every session, final contents (fresh reader + independent parser) vs. the records of completed sessions, "
     "readers see complete committed records only; each reported schedule is replayed and must give the same verdict. A TLA+ session-level model (models/Sessions.tla) is explored exhaustively by TLC; ALL of its "
     "behaviours are replayed against the implementation through the scheduler (the implementation must follow each and satisfy the same oracles), and every lock-level event sequence the explorer observes on the "
